@@ -209,6 +209,15 @@ def summarise(ctx, qn, policy=default_policy, oracle=None, args=None, self_term=
     return ps
 
 
+def self_chain(t):
+    """field names of an attribute chain rooted at self: self.a.b -> ['a', 'b']; None for anything else"""
+    names = []
+    while t[0] == 'attr':
+        names.append(t[2])
+        t = t[1]
+    return list(reversed(names)) if t == V('self') and names else None
+
+
 def slot_memos(ctx, fn, ps):
     """One-slot memoisation inside fn: the object remembers the last question and its answer in fields of its own (two fields, or one field holding a tuple),
         hit:  `self.T == g(params)` [and ...] -> return self.R (or a copy)        miss:  self.T = g(params) ; self.R = v ; return v (or a copy)
@@ -463,12 +472,18 @@ def memo_tables(ctx, fn, ps):
     out = {}
     params = [p_ for p_ in fn.params if p_ not in ('self', 'cls')]
     writes = {}
+    tables = {}
     for i, p in enumerate(ps):
         for w in heap_writes(p):
-            if w.loc[0] == 'sub' and w.loc[1][0] == 'attr' and w.loc[1][1] == V('self') and w.how == 'assign':
+            # the table is a field of the object, or of a helper object the object keeps in a field (self._weighting.weight_by_count)
+            if w.loc[0] == 'sub' and w.how == 'assign' and self_chain(w.loc[1]) is not None:
                 writes.setdefault(w.loc[1][2], []).append((i, w))
+                tables[w.loc[1][2]] = w.loc[1]
     for m, ws in writes.items():
-        table = ('attr', V('self'), m)
+        table = tables[m]
+        holders = set(self_chain(table)[:-1])
+        owner = ctx.M.funcs.get(ws[0][1].fn) or next((g_ for g_ in ctx.M.all_funcs() if g_.qn == ws[0][1].fn), None)
+        owner_cls = owner.cls if owner is not None and owner.cls is not None else fn.cls
         inplace = [w for p in ps for w in heap_writes(p) if w.loc[0] in ('sub', 'attr') and any(s_ == table for s_ in T.subterms(w.loc[1]))
                    and not (w.loc[0] == 'sub' and w.loc[1] == table)]
         if inplace:
@@ -526,8 +541,9 @@ def memo_tables(ctx, fn, ps):
                 kroots = {root_(k_) for k_ in katoms}
                 # (elements of loops the key does not speak about - the sources tried in turn for one answer - are not what the entry is "for")
                 missing = sorted({fmt(a_) for a_ in _access_atoms(w.value, params) if (root_(a_)[0] == 'var' or root_(a_) in kroots) and not _determined(a_, katoms)})
-            fields = {s_[2] for s_ in T.subterms(w.value) if s_[0] == 'attr' and s_[1] == V('self') and s_[2] != m}
-            mutable = sorted(f_ for f_ in fields if fn.cls is not None and ctx.M.field_written_outside_init(fn.cls, f_))
+            # (the helper objects the table hangs from are not inputs: replacing one of them replaces the table with it)
+            fields = {s_[2] for s_ in T.subterms(w.value) if s_[0] == 'attr' and self_chain(s_) is not None and s_[2] != m and s_[2] not in holders}
+            mutable = sorted(f_ for f_ in fields if owner_cls is not None and ctx.M.field_written_outside_init(owner_cls, f_))
             if missing:
                 pin = _generation_tag(ctx, fn, ps, table, missing)
                 if pin is True:
@@ -539,8 +555,22 @@ def memo_tables(ctx, fn, ps):
                 verdict = ('unsound', Kw, missing)
                 break
             if mutable:
-                verdict = ('other', 'the stored value reads %s, which is rewritten after construction' % mutable)
-                break
+                # ... unless whoever rewrites it drops the table in the same step (clears or rebinds it, or replaces the helper object it hangs from)
+                undropped = []
+                for f_ in mutable:
+                    for g in ctx.M.all_funcs():
+                        if g.parent is not None or g.name == '__init__' or ctx.M.ctor_only(g):
+                            continue
+                        if not any(isinstance(n_, ast.Attribute) and isinstance(n_.ctx, (ast.Store, ast.Del)) and n_.attr == f_ for n_ in ast.walk(g.node)):
+                            continue
+                        drops = any((isinstance(n_, ast.Attribute) and isinstance(n_.ctx, (ast.Store, ast.Del)) and n_.attr in ({m} | holders)) or
+                                    (isinstance(n_, ast.Call) and isinstance(n_.func, ast.Attribute) and n_.func.attr == 'clear' and isinstance(n_.func.value, ast.Attribute)
+                                     and n_.func.value.attr == m) for n_ in ast.walk(g.node))
+                        if not drops:
+                            undropped.append('%s writes %s' % (g.qn, f_))
+                if undropped:
+                    verdict = ('unsound', Kw, mutable, '%s and leaves the remembered entries, computed from the old value, in place' % '; '.join(sorted(set(undropped))[:2]))
+                    break
         if verdict is None:
             # hit paths: a membership test on the same key, the table entry returned, nothing written
             hits = [p for p in ps if any(c[0] == 'cmp' and c[1] == 'in' and c[3] == table and v_ for c, v_, _ in p.conds)]
@@ -937,7 +967,8 @@ def without_sound_memo_hits(ctx, rule, fn, ps, keyprefix):
     for m_, vd in sorted(memos.items()):
         if vd[0] == 'unsound':
             ctx.violation(rule, '%s answers from its memo %s only what it would compute afresh' % (fn.qn, m_), fn.site(),
-                          'the memo is keyed by %s but the stored value also depends on %s' % (fmt(vd[1]), ', '.join(vd[2])), key='%s|%s|memo-key' % (keyprefix, m_))
+                          'the memo is keyed by %s but the stored value also depends on %s%s' % (fmt(vd[1]), ', '.join(vd[2]), (': ' + vd[3]) if len(vd) > 3 else ''),
+                          key='%s|%s|memo-key' % (keyprefix, m_))
         elif vd[0] == 'sound':
             if fn.cls is not None and class_level_table(ctx.M, getattr(fn, 'dyn_cls', None) or fn.cls, m_):
                 ctx.violation(rule, '%s answers from its memo %s only what it would compute afresh' % (fn.qn, m_), fn.site(),
@@ -946,7 +977,7 @@ def without_sound_memo_hits(ctx, rule, fn, ps, keyprefix):
             else:
                 ctx.holds(rule, '%s: memo %s is per instance and keyed by everything its entries depend on (%s)' % (fn.qn, m_, fmt(vd[1])), fn.site())
                 sound.add(m_)
-    keep = [p for p in ps if not any(c_[0] == 'cmp' and c_[1] == 'in' and v_ and c_[3][0] == 'attr' and c_[3][1] == V('self') and c_[3][2] in sound for c_, v_, _ in p.conds)]
+    keep = [p for p in ps if not any(c_[0] == 'cmp' and c_[1] == 'in' and v_ and c_[3][0] == 'attr' and self_chain(c_[3]) is not None and c_[3][2] in sound for c_, v_, _ in p.conds)]
     return keep, sound
 
 
